@@ -10,14 +10,15 @@ Notation itc := (fb_iter HdrContact).
 (* a value text the value parser is known to handle: ended by [LWS] "," it asks for more values, ended by blanks and the end of the
    line it is the last one; either way the value reported is gv_v at its offset and spans exactly the text *)
 Record gval := mkgval { gv_l : list byte; gv_x : list byte; gv_g : list byte; gv_v : N -> pfrom }.
-Definition gv_ok (g : gval) : Prop :=
+Definition gv_okh (h : N) (g : gval) : Prop :=
   gp (gv_l g) /\ (exists c X', gv_x g = c :: X' /\ is_ws c = false) /\
   gp (gv_g g) /\ gv_x g <> [] /\
   (forall (pre y : list byte) i, i = nnat (length pre) ->
-     run itc pre (gv_x g ++ gv_g g ++ (44 : byte) :: y) i 0 pfrom0 = Done (i + nnat (length (gv_x g)) + nnat (length (gv_g g)) + 1) EMoreValues (gv_v g i)) /\
+     run (fb_iter h) pre (gv_x g ++ gv_g g ++ (44 : byte) :: y) i 0 pfrom0 = Done (i + nnat (length (gv_x g)) + nnat (length (gv_g g)) + 1) EMoreValues (gv_v g i)) /\
   (forall (pre sp : list byte) x tail i, i = nnat (length pre) -> spaces sp -> is_sp x = false ->
-     run itc pre (gv_x g ++ sp ++ CR :: LF :: x :: tail) i 0 pfrom0 = Done (i + nnat (length (gv_x g)) + nnat (length sp) + 2) EOk (gv_v g i)) /\
-  (forall i, fb_parsed (gv_v g i) = true /\ fb_v (gv_v g i) = mkpf i (nnat (length (gv_x g)))).
+     run (fb_iter h) pre (gv_x g ++ sp ++ CR :: LF :: x :: tail) i 0 pfrom0 = Done (i + nnat (length (gv_x g)) + nnat (length sp) + 2) EOk (gv_v g i)) /\
+  (forall i, fb_parsed (gv_v g i) = true /\ fb_v (gv_v g i) = mkpf i (nnat (length (gv_x g))) /\ fb_star (gv_v g i) = false).
+Definition gv_ok (g : gval) : Prop := gv_okh HdrContact g.
 
 Definition gv_step (g : gval) : list byte := gv_l g ++ gv_x g ++ gv_g g ++ [(44 : byte)].
 Definition gv_at (i : N) (g : gval) : N := i + nnat (length (gv_l g)).
@@ -40,7 +41,7 @@ Lemma ctg_iter_comma (pre y : list byte) i g l : i = nnat (length pre) -> gv_ok 
   ct_iter pre (gv_step g ++ y) i l = Next (length (gv_step g)) (ct_addv l (gv_v g (gv_at i g)) true).
 Proof.
   intros Hi Hok (Hwf & Hsel & Hlh). destruct (gv_lead g pre (gv_g g ++ (44 : byte) :: y) i Hok Hi) as [El Ea].
-  destruct Hok as (_ & _ & Hg & Hne & Hc & _ & Hv). destruct (Hv (gv_at i g)) as [Hp Hfv].
+  destruct Hok as (_ & _ & Hg & Hne & Hc & _ & Hv). destruct (Hv (gv_at i g)) as (Hp & Hfv & Hst).
   unfold gv_step. rewrite <- !app_assoc. cbn [app]. rewrite ct_iter_def, Hsel, El, (Hc _ y _ Ea), ct_post_eq. cbv zeta.
   unfold ct_addv. destruct (ct_store_proj l (gv_v g (gv_at i g))) as (_ & _ & _ & _ & S5 & _).
   destruct (ct_count_some (ct_store l (gv_v g (gv_at i g))) (gv_v g (gv_at i g)) ltac:(rewrite S5, Hfv; unfold pf_end, gv_at in *; cbn [po pl]; lia)) as (c6 & E6 & _).
@@ -51,7 +52,7 @@ Lemma ctg_iter_eol (pre sp : list byte) x tail i g l : i = nnat (length pre) -> 
   = Ret (gv_at i g + nnat (length (gv_x g)) + nnat (length sp) + 2) EOk (ct_addv l (gv_v g (gv_at i g)) false).
 Proof.
   intros Hi Hok Hsp Hx (Hwf & Hsel & Hlh). destruct (gv_lead g pre (sp ++ CR :: LF :: x :: tail) i Hok Hi) as [El Ea].
-  destruct Hok as (_ & _ & Hg & Hne & _ & He & Hv). destruct (Hv (gv_at i g)) as [Hp Hfv].
+  destruct Hok as (_ & _ & Hg & Hne & _ & He & Hv). destruct (Hv (gv_at i g)) as (Hp & Hfv & Hst).
   rewrite ct_iter_def, Hsel, El, (He _ sp x tail _ Ea Hsp Hx), ct_post_eq. cbv zeta.
   unfold ct_addv. destruct (ct_store_proj l (gv_v g (gv_at i g))) as (_ & _ & _ & _ & S5 & _).
   destruct (ct_count_some (ct_store l (gv_v g (gv_at i g))) (gv_v g (gv_at i g)) ltac:(rewrite S5, Hfv; unfold pf_end, gv_at in *; cbn [po pl]; lia)) as (c6 & E6 & _).
@@ -75,7 +76,7 @@ Proof. unfold gv_step. destruct (gv_l g); [destruct (gv_x g); [destruct (gv_g g)
 
 Lemma addv_CtI i l g j : gv_ok g -> CtI i l -> gv_at i g + nnat (length (gv_x g)) <= j -> CtI j (ct_addv l (gv_v g (gv_at i g)) true).
 Proof.
-  intros (_ & _ & _ & _ & _ & _ & Hv) Hl Hj. destruct (Hv (gv_at i g)) as [Hp Hfv]. destruct Hl as (W & Sl & Lh).
+  intros (_ & _ & _ & _ & _ & _ & Hv) Hl Hj. destruct (Hv (gv_at i g)) as (Hp & Hfv & Hst). destruct Hl as (W & Sl & Lh).
   destruct (ct_addv_facts i l (gv_v g (gv_at i g)) true (conj W (conj Sl Lh)) ltac:(rewrite Hfv; unfold pf_end, gv_at in *; cbn [po pl]; lia) Hp) as (F1 & F2 & F3 & F4 & F5 & F6).
   split; [exact F3|]. split; [apply F4; reflexivity|]. rewrite F5, Hfv.
   destruct ((ct_n l =? 0) || pf_empty (ct_lasthval l)); unfold pf_end, gv_at in *; cbn [po pl]; lia.
@@ -112,7 +113,7 @@ Lemma gaddvs_facts gs : forall i l, gs <> [] -> Forall gv_ok gs -> CtI i l ->
 Proof.
   induction gs as [|g gs IH]; intros i l Hne Hall Hl; [congruence|].
   pose proof (Forall_inv Hall) as Hg. pose proof (Forall_inv_tail Hall) as Hall'.
-  pose proof Hg as Hg0. destruct Hg as (Hgl & Hfirst & Hgg & Hxne & Hc & He & Hv). destruct (Hv (gv_at i g)) as [Hp Hfv].
+  pose proof Hg as Hg0. destruct Hg as (Hgl & Hfirst & Hgg & Hxne & Hc & He & Hv). destruct (Hv (gv_at i g)) as (Hp & Hfv & Hst).
   assert (Hxl : 0 < nnat (length (gv_x g))) by (destruct (gv_x g); [congruence|cbn [length]; unfold nnat; lia]).
   assert (Hia : i <= gv_at i g) by (unfold gv_at; lia).
   assert (Hb : pf_end (ct_lasthval l) <= pf_end (fb_v (gv_v g (gv_at i g)))) by (destruct Hl as (_ & _ & Hx); rewrite Hfv; unfold pf_end in *; cbn [po pl]; lia).
@@ -180,8 +181,18 @@ Proof.
 Qed.
 
 (* ---- the value texts of NameAddrGen.v are such values -------------------------------------------------------------------------------------- *)
-Lemma run_parse_c (pre rest : list byte) i : i = nnat (length pre) -> run itc pre rest i 0 pfrom0 = parse_nameaddr HdrContact (rev pre ++ rest) (nnat (length (rev pre))) pfrom0.
+Lemma run_parse_c h (pre rest : list byte) i : i = nnat (length pre) -> run (fb_iter h) pre rest i 0 pfrom0 = parse_nameaddr h (rev pre ++ rest) (nnat (length (rev pre))) pfrom0.
 Proof. intros Hi. unfold parse_nameaddr. rewrite rev_length, <- Hi. apply run_as_parse. exact Hi. Qed.
+
+(* ---- P-Asserted-Identity values: ParseOnePAI is the value parser plus the rejection of the star ------------------------------------------- *)
+Lemma pai_one_same buf offs s o e s' : parse_nameaddr HdrPAI buf offs s = Done o e s' -> fb_star s' = false -> parse_one_pai buf offs s = Done o e s'.
+Proof. intros H Hs. unfold parse_one_pai. rewrite H, Hs, Bool.andb_false_r. reflexivity. Qed.
+Lemma general_values_no_star h p L t i b d : fb_star b = false ->
+  fb_star (finW h d (t_apply p (i + nnat (length (its_bytes L))) t (its_state p i L b))) = false.
+Proof.
+  intros Hb. cbn [finW fb_star]. pose proof (t_apply_un p (i + nnat (length (its_bytes L))) t (its_state p i L b)) as U.
+  rewrite its_state_un in U. unfold unview in U. injection U as _ _ U3. rewrite U3. exact Hb.
+Qed.
 
 Lemma nchar0_nonws c : nchar0 c -> is_ws c = false.
 Proof. unfold nchar0, ccls_of. destruct (is_ws c); [contradiction|reflexivity]. Qed.
@@ -194,100 +205,105 @@ Proof.
   - exists n0. eexists. split; [reflexivity|apply nchar0_nonws; exact H0].
   - exists 34. eexists. split; reflexivity.
 Qed.
-Definition gv_plain (l D uri g : list byte) : gval :=
-  mkgval l (bhead D uri) g (fun i0 => fD HdrContact (dname i0 D) i0 (i0 + nnat (length D) + 1) (nnat (length uri))).
-Lemma gv_plain_ok l D uri g : gp l -> disp D -> Forall uchar uri -> gp g -> gv_ok (gv_plain l D uri g).
+Definition gv_plainh (h : N) (l D uri g : list byte) : gval :=
+  mkgval l (bhead D uri) g (fun i0 => fD h (dname i0 D) i0 (i0 + nnat (length D) + 1) (nnat (length uri))).
+Lemma gv_plain_okh h l D uri g : multipleValsOk h = true -> gp l -> disp D -> Forall uchar uri -> gp g -> gv_okh h (gv_plainh h l D uri g).
 Proof.
-  intros Hl HD Hu Hg. unfold gv_ok, gv_plain. cbn [gv_l gv_x gv_g gv_v].
+  intros Hmv Hl HD Hu Hg. unfold gv_okh, gv_plainh. cbn [gv_l gv_x gv_g gv_v].
   split; [exact Hl|]. split; [apply bhead_first; exact HD|].
   split; [exact Hg|]. split; [unfold bhead; destruct D; discriminate|]. split; [|split].
-  - intros pre y i Hi. rewrite (run_parse_c pre _ i Hi).
-    rewrite (nameaddr_display_uri_comma HdrContact (rev pre) D uri g y eq_refl HD Hu Hg). rewrite rev_length, <- Hi.
+  - intros pre y i Hi. rewrite (run_parse_c h pre _ i Hi).
+    rewrite (nameaddr_display_uri_comma h (rev pre) D uri g y Hmv HD Hu Hg). rewrite rev_length, <- Hi.
     f_equal. unfold bhead. repeat (rewrite app_length; cbn [length]). unfold nnat. lia.
-  - intros pre sp x tail i Hi Hsp Hx. rewrite (run_parse_c pre _ i Hi).
-    rewrite (nameaddr_display_uri_eol HdrContact (rev pre) D uri sp x tail HD Hu Hsp Hx). rewrite rev_length, <- Hi.
+  - intros pre sp x tail i Hi Hsp Hx. rewrite (run_parse_c h pre _ i Hi).
+    rewrite (nameaddr_display_uri_eol h (rev pre) D uri sp x tail HD Hu Hsp Hx). rewrite rev_length, <- Hi.
     f_equal. unfold bhead. repeat (rewrite app_length; cbn [length]). unfold nnat. lia.
-  - intros i. split; [reflexivity|]. unfold fD. cbn [fb_v]. f_equal. unfold bhead. repeat (rewrite app_length; cbn [length]). unfold nnat. lia.
+  - intros i. split; [reflexivity|]. split; [|reflexivity]. unfold fD. cbn [fb_v]. f_equal. unfold bhead. repeat (rewrite app_length; cbn [length]). unfold nnat. lia.
 Qed.
 
 Definition gvp_x (D uri g0 : list byte) (L : list pit) (t : pit) : list byte := bhead D uri ++ g0 ++ (59 : byte) :: its_bytes L ++ t_body t.
-Definition gvp_v (D uri g0 : list byte) (L : list pit) (t : pit) (i0 : N) : pfrom :=
+Definition gvp_v (h : N) (D uri g0 : list byte) (L : list pit) (t : pit) (i0 : N) : pfrom :=
   let us := i0 + nnat (length D) + 1 in let lu := nnat (length uri) in
   let i := us + lu + 1 + nnat (length g0) + 1 in let j := i + nnat (length (its_bytes L)) in
-  finW HdrContact (t_d j t) (t_apply false j t (its_state false i L (bD (dname i0 D) i0 us lu))).
-Definition gv_params (l D uri g0 : list byte) (L : list pit) (t : pit) : gval := mkgval l (gvp_x D uri g0 L t) (t_g4 t) (gvp_v D uri g0 L t).
-Lemma gv_params_ok l D uri g0 L t : gp l -> disp D -> Forall uchar uri -> gp g0 -> Forall t_ok L -> t_ok t -> gv_ok (gv_params l D uri g0 L t).
+  finW h (t_d j t) (t_apply false j t (its_state false i L (bD (dname i0 D) i0 us lu))).
+Definition gv_paramsh (h : N) (l D uri g0 : list byte) (L : list pit) (t : pit) : gval := mkgval l (gvp_x D uri g0 L t) (t_g4 t) (gvp_v h D uri g0 L t).
+Lemma gv_params_okh h l D uri g0 L t : multipleValsOk h = true -> gp l -> disp D -> Forall uchar uri -> gp g0 -> Forall t_ok L -> t_ok t -> gv_okh h (gv_paramsh h l D uri g0 L t).
 Proof.
-  intros Hl HD Hu Hg HL Ht. unfold gv_ok, gv_params. cbn [gv_l gv_x gv_g gv_v].
+  intros Hmv Hl HD Hu Hg HL Ht. unfold gv_okh, gv_paramsh. cbn [gv_l gv_x gv_g gv_v].
   assert (Hg4 : gp (t_g4 t)) by (destruct Ht as (_ & _ & _ & H); exact H).
   assert (Hlen : forall i0, let us := i0 + nnat (length D) + 1 in let lu := nnat (length uri) in
             let i := us + lu + 1 + nnat (length g0) + 1 in let j := i + nnat (length (its_bytes L)) in t_d j t = i0 + nnat (length (gvp_x D uri g0 L t))).
   { intros i0 us lu i j. subst j i us lu. unfold t_d, gvp_x, bhead. repeat (rewrite app_length; cbn [length]). unfold nnat. lia. }
   split; [exact Hl|]. split; [unfold gvp_x; destruct (bhead_first D uri HD) as (c & X' & -> & Hc); exists c; eexists; split; [reflexivity|exact Hc]|].
   split; [exact Hg4|]. split; [unfold gvp_x, bhead; destruct D; discriminate|]. split; [|split].
-  - intros pre y i Hi. rewrite (run_parse_c pre _ i Hi). unfold gvp_x. repeat (rewrite <- ?app_assoc; cbn [app]).
-    pose proof (nameaddr_display_params_comma HdrContact (rev pre) D uri g0 L t y eq_refl HD Hu Hg HL Ht) as T. cbv zeta in T.
+  - intros pre y i Hi. rewrite (run_parse_c h pre _ i Hi). unfold gvp_x. repeat (rewrite <- ?app_assoc; cbn [app]).
+    pose proof (nameaddr_display_params_comma h (rev pre) D uri g0 L t y Hmv HD Hu Hg HL Ht) as T. cbv zeta in T.
     repeat (rewrite <- ?app_assoc in T; cbn [app] in T). rewrite T. rewrite rev_length, <- Hi. unfold gvp_v. cbv zeta.
     f_equal. pose proof (Hlen i) as E. cbv zeta in E. rewrite E. unfold gvp_x. repeat (rewrite <- ?app_assoc; cbn [app]). lia.
-  - intros pre sp x tail i Hi Hsp Hx. rewrite (run_parse_c pre _ i Hi). unfold gvp_x. repeat (rewrite <- ?app_assoc; cbn [app]).
-    pose proof (nameaddr_display_params_eol HdrContact (rev pre) D uri g0 L t sp x tail HD Hu Hg HL Ht Hsp Hx) as T. cbv zeta in T.
+  - intros pre sp x tail i Hi Hsp Hx. rewrite (run_parse_c h pre _ i Hi). unfold gvp_x. repeat (rewrite <- ?app_assoc; cbn [app]).
+    pose proof (nameaddr_display_params_eol h (rev pre) D uri g0 L t sp x tail HD Hu Hg HL Ht Hsp Hx) as T. cbv zeta in T.
     repeat (rewrite <- ?app_assoc in T; cbn [app] in T). rewrite T. rewrite rev_length, <- Hi. unfold gvp_v. cbv zeta.
     f_equal. pose proof (Hlen i) as E. cbv zeta in E. rewrite E. unfold gvp_x. repeat (rewrite <- ?app_assoc; cbn [app]). lia.
   - intros i0. unfold gvp_v. cbv zeta.
     set (us := i0 + nnat (length D) + 1). set (lu := nnat (length uri)). set (i := us + lu + 1 + nnat (length g0) + 1). set (j := i + nnat (length (its_bytes L))).
-    destruct (gen_result_fields HdrContact false L t i (bD (dname i0 D) i0 us lu) (t_d j t) ltac:(subst i; lia) eq_refl) as (F1 & _ & _ & _ & _ & _ & F7).
-    fold j in F1, F7. split; [unfold fb_parsed; rewrite F1; reflexivity|]. rewrite F7. cbn [bD fb_v po]. f_equal.
+    destruct (gen_result_fields h false L t i (bD (dname i0 D) i0 us lu) (t_d j t) ltac:(subst i; lia) eq_refl) as (F1 & _ & _ & _ & _ & _ & F7).
+    fold j in F1, F7. split; [unfold fb_parsed; rewrite F1; reflexivity|]. split; [|apply general_values_no_star; reflexivity]. rewrite F7. cbn [bD fb_v po]. f_equal.
     pose proof (Hlen i0) as E. cbv zeta in E. fold us lu i j in E. lia.
 Qed.
 
 (* bare URIs *)
-Definition gv_bare (l : list byte) (n0 : byte) (name g : list byte) : gval := mkgval l (n0 :: name) g (fun i0 => fB HdrContact i0 (nnat (length (n0 :: name)))).
-Lemma gv_bare_ok l n0 name g : gp l -> nchar0 n0 -> Forall nchar name -> gp g -> gv_ok (gv_bare l n0 name g).
+Definition gv_bareh (h : N) (l : list byte) (n0 : byte) (name g : list byte) : gval := mkgval l (n0 :: name) g (fun i0 => fB h i0 (nnat (length (n0 :: name)))).
+Lemma gv_bare_okh h l n0 name g : multipleValsOk h = true -> gp l -> nchar0 n0 -> Forall nchar name -> gp g -> gv_okh h (gv_bareh h l n0 name g).
 Proof.
-  intros Hl Hn0 Hname Hg. unfold gv_ok, gv_bare. cbn [gv_l gv_x gv_g gv_v].
+  intros Hmv Hl Hn0 Hname Hg. unfold gv_okh, gv_bareh. cbn [gv_l gv_x gv_g gv_v].
   split; [exact Hl|]. split; [exists n0, name; split; [reflexivity|apply nchar0_nonws; exact Hn0]|].
   split; [exact Hg|]. split; [discriminate|]. split; [|split].
-  - intros pre y i Hi. rewrite (run_parse_c pre _ i Hi).
-    rewrite (nameaddr_bare_comma HdrContact (rev pre) n0 name g y eq_refl Hn0 Hname Hg). rewrite rev_length, <- Hi. reflexivity.
-  - intros pre sp x tail i Hi Hsp Hx. rewrite (run_parse_c pre _ i Hi).
-    rewrite (nameaddr_bare_eol HdrContact (rev pre) n0 name sp x tail Hn0 Hname Hsp Hx). rewrite rev_length, <- Hi. reflexivity.
-  - intros i. split; reflexivity.
+  - intros pre y i Hi. rewrite (run_parse_c h pre _ i Hi).
+    rewrite (nameaddr_bare_comma h (rev pre) n0 name g y Hmv Hn0 Hname Hg). rewrite rev_length, <- Hi. reflexivity.
+  - intros pre sp x tail i Hi Hsp Hx. rewrite (run_parse_c h pre _ i Hi).
+    rewrite (nameaddr_bare_eol h (rev pre) n0 name sp x tail Hn0 Hname Hsp Hx). rewrite rev_length, <- Hi. reflexivity.
+  - intros i. repeat split; reflexivity.
 Qed.
 Definition gvb_x (n0 : byte) (name g0 : list byte) (L : list pit) (t : pit) : list byte := headB n0 name g0 ++ its_bytes L ++ t_body t.
-Definition gvb_v (n0 : byte) (name g0 : list byte) (L : list pit) (t : pit) (i0 : N) : pfrom :=
+Definition gvb_v (h : N) (n0 : byte) (name g0 : list byte) (L : list pit) (t : pit) (i0 : N) : pfrom :=
   let i := i0 + nnat (length (headB n0 name g0)) in let j := i + nnat (length (its_bytes L)) in
-  finW HdrContact (t_d j t) (t_apply true j t (its_state true i L (bB i0 (nnat (length (n0 :: name))) g0))).
-Definition gv_bare_params (l : list byte) (n0 : byte) (name g0 : list byte) (L : list pit) (t : pit) : gval := mkgval l (gvb_x n0 name g0 L t) (t_g4 t) (gvb_v n0 name g0 L t).
-Lemma gv_bare_params_ok l n0 name g0 L t : gp l -> nchar0 n0 -> Forall nchar name -> gp g0 -> Forall t_ok L -> t_ok t -> gv_ok (gv_bare_params l n0 name g0 L t).
+  finW h (t_d j t) (t_apply true j t (its_state true i L (bB i0 (nnat (length (n0 :: name))) g0))).
+Definition gv_bare_paramsh (h : N) (l : list byte) (n0 : byte) (name g0 : list byte) (L : list pit) (t : pit) : gval := mkgval l (gvb_x n0 name g0 L t) (t_g4 t) (gvb_v h n0 name g0 L t).
+Lemma gv_bare_params_okh h l n0 name g0 L t : multipleValsOk h = true -> gp l -> nchar0 n0 -> Forall nchar name -> gp g0 -> Forall t_ok L -> t_ok t -> gv_okh h (gv_bare_paramsh h l n0 name g0 L t).
 Proof.
-  intros Hl Hn0 Hname Hg HL Ht. unfold gv_ok, gv_bare_params. cbn [gv_l gv_x gv_g gv_v].
+  intros Hmv Hl Hn0 Hname Hg HL Ht. unfold gv_okh, gv_bare_paramsh. cbn [gv_l gv_x gv_g gv_v].
   assert (Hg4 : gp (t_g4 t)) by (destruct Ht as (_ & _ & _ & H); exact H).
   assert (Hlen : forall i0, let i := i0 + nnat (length (headB n0 name g0)) in let j := i + nnat (length (its_bytes L)) in
             t_d j t = i0 + nnat (length (gvb_x n0 name g0 L t))).
   { intros i0 i j. subst j i. unfold t_d, gvb_x. repeat (rewrite app_length; cbn [length]). unfold nnat. lia. }
   split; [exact Hl|]. split; [unfold gvb_x, headB; exists n0; eexists; split; [cbn [app]; reflexivity|apply nchar0_nonws; exact Hn0]|].
   split; [exact Hg4|]. split; [unfold gvb_x, headB; discriminate|]. split; [|split].
-  - intros pre y i Hi. rewrite (run_parse_c pre _ i Hi). unfold gvb_x. repeat (rewrite <- ?app_assoc).
-    pose proof (nameaddr_bare_params_comma HdrContact (rev pre) n0 name g0 L t y eq_refl Hn0 Hname Hg HL Ht) as T. cbv zeta in T.
+  - intros pre y i Hi. rewrite (run_parse_c h pre _ i Hi). unfold gvb_x. repeat (rewrite <- ?app_assoc).
+    pose proof (nameaddr_bare_params_comma h (rev pre) n0 name g0 L t y Hmv Hn0 Hname Hg HL Ht) as T. cbv zeta in T.
     rewrite T. rewrite rev_length, <- Hi. unfold gvb_v. cbv zeta.
     f_equal. pose proof (Hlen i) as E. cbv zeta in E. rewrite E. unfold gvb_x. lia.
-  - intros pre sp x tail i Hi Hsp Hx. rewrite (run_parse_c pre _ i Hi). unfold gvb_x. repeat (rewrite <- ?app_assoc).
-    pose proof (nameaddr_bare_params_eol HdrContact (rev pre) n0 name g0 L t sp x tail Hn0 Hname Hg HL Ht Hsp Hx) as T. cbv zeta in T.
+  - intros pre sp x tail i Hi Hsp Hx. rewrite (run_parse_c h pre _ i Hi). unfold gvb_x. repeat (rewrite <- ?app_assoc).
+    pose proof (nameaddr_bare_params_eol h (rev pre) n0 name g0 L t sp x tail Hn0 Hname Hg HL Ht Hsp Hx) as T. cbv zeta in T.
     rewrite T. rewrite rev_length, <- Hi. unfold gvb_v. cbv zeta.
     f_equal. pose proof (Hlen i) as E. cbv zeta in E. rewrite E. unfold gvb_x. lia.
   - intros i0. unfold gvb_v. cbv zeta.
     set (i := i0 + nnat (length (headB n0 name g0))). set (j := i + nnat (length (its_bytes L))).
-    destruct (gen_result_fields HdrContact true L t i (bB i0 (nnat (length (n0 :: name))) g0) (t_d j t) ltac:(subst i; unfold headB; cbn [length app]; unfold nnat; lia) eq_refl) as (F1 & _ & _ & _ & _ & _ & F7).
-    fold j in F1, F7. split; [unfold fb_parsed; rewrite F1; reflexivity|]. rewrite F7. cbn [bB fb_v po]. f_equal.
+    destruct (gen_result_fields h true L t i (bB i0 (nnat (length (n0 :: name))) g0) (t_d j t) ltac:(subst i; unfold headB; cbn [length app]; unfold nnat; lia) eq_refl) as (F1 & _ & _ & _ & _ & _ & F7).
+    fold j in F1, F7. split; [unfold fb_parsed; rewrite F1; reflexivity|]. split; [|apply general_values_no_star; reflexivity]. rewrite F7. cbn [bB fb_v po]. f_equal.
     pose proof (Hlen i0) as E. cbv zeta in E. fold i j in E. lia.
 Qed.
 
-(* ---- P-Asserted-Identity values: ParseOnePAI is the value parser plus the rejection of the star ------------------------------------------- *)
-Lemma pai_one_same buf offs s o e s' : parse_nameaddr HdrPAI buf offs s = Done o e s' -> fb_star s' = false -> parse_one_pai buf offs s = Done o e s'.
-Proof. intros H Hs. unfold parse_one_pai. rewrite H, Hs, Bool.andb_false_r. reflexivity. Qed.
-Lemma general_values_no_star h p L t i b d : fb_star b = false ->
-  fb_star (finW h d (t_apply p (i + nnat (length (its_bytes L))) t (its_state p i L b))) = false.
-Proof.
-  intros Hb. cbn [finW fb_star]. pose proof (t_apply_un p (i + nnat (length (its_bytes L))) t (its_state p i L b)) as U.
-  rewrite its_state_un in U. unfold unview in U. injection U as _ _ U3. rewrite U3. exact Hb.
-Qed.
+
+(* the Contact instances *)
+Definition gv_plain := gv_plainh HdrContact.
+Definition gv_params := gv_paramsh HdrContact.
+Definition gv_bare := gv_bareh HdrContact.
+Definition gv_bare_params := gv_bare_paramsh HdrContact.
+Lemma gv_plain_ok l D uri g : gp l -> disp D -> Forall uchar uri -> gp g -> gv_ok (gv_plain l D uri g).
+Proof. apply gv_plain_okh. reflexivity. Qed.
+Lemma gv_params_ok l D uri g0 L t : gp l -> disp D -> Forall uchar uri -> gp g0 -> Forall t_ok L -> t_ok t -> gv_ok (gv_params l D uri g0 L t).
+Proof. apply gv_params_okh. reflexivity. Qed.
+Lemma gv_bare_ok l n0 name g : gp l -> nchar0 n0 -> Forall nchar name -> gp g -> gv_ok (gv_bare l n0 name g).
+Proof. apply gv_bare_okh. reflexivity. Qed.
+Lemma gv_bare_params_ok l n0 name g0 L t : gp l -> nchar0 n0 -> Forall nchar name -> gp g0 -> Forall t_ok L -> t_ok t -> gv_ok (gv_bare_params l n0 name g0 L t).
+Proof. apply gv_bare_params_okh. reflexivity. Qed.
